@@ -480,7 +480,7 @@ func (w *world) addNode() bool {
 	}
 	idx := len(w.peers)
 	a, b := net.Pipe()
-	p := &peer{idx: idx, conn: b, interrupt: make(chan interface{}), done: make(chan struct{}), stage: 'f'}
+	p := &peer{idx: idx, conn: b, interrupt: make(chan interface{}), done: make(chan struct{}), stage: 'f', lastHs: time.Now()}
 	p.node = bitcoin_reader.NewBitcoinNode(fmt.Sprintf("10.0.0.%d:8333", idx+1), "/brv:0.1/", w.cfg, w.hdr, &peerSpy{})
 	if w.txm != nil {
 		p.node.SetTxManager(w.txm) // as FindByScore does
@@ -500,6 +500,7 @@ func (w *world) addNode() bool {
 }
 
 func (w *world) finish() {
+	napHook = nil
 	for _, p := range w.peers {
 		p.hangUp()
 	}
